@@ -67,10 +67,19 @@ def handle (req : Sexp) : Sexp :=
     match Expr.ofSexp? f with
     | some f => .list [(dtbsIpred f lam).toSexp, (dtbsW f zeta).toSexp]
     | _ => bad
-  | .list [.atom "power", ipred, .atom theta, .atom eps] =>
-    match Expr.ofSexp? ipred with
-    | some ip => (powerTerm ip theta eps).toSexp
-    | _ => bad
+  | .list [.atom "power", adj, ipred, .atom theta, .atom eps] =>
+    match Expr.ofSexp? ipred, adj.asBool? with
+    | some ip, some adj => (powerTerm adj ip theta eps).toSexp
+    | _, _ => bad
+  | .list [.atom "iivonruv", y, ps] =>
+    match Expr.ofSexp? y, ps.asList?.bind (·.mapM (fun p => match p with
+        | .list [.atom e, .atom h] => some (e, h) | _ => none)) with
+    | some y, some ps => (iivOnRuv y ps).toSexp
+    | _, _ => bad
+  | .list [.atom "timevarying", y, eps, .atom theta, cond] =>
+    match Expr.ofSexp? y, symList? eps, Expr.ofSexp? cond with
+    | some y, some eps, some cond => (timeVarying y eps theta cond).toSexp
+    | _, _, _ => bad
   | .list [.atom "allometry", ss, .atom p, var, ref, .atom theta] =>
     match stmts? ss, Expr.ofSexp? var, Expr.ofSexp? ref with
     | some ss, some var, some ref => optStmts (addAllometry ss p var ref theta)
